@@ -376,7 +376,10 @@ where
                         ir.types.clear();
                         ir.types.insert(None);
                     }
-                    let is_function_prop = ir.types.contains(&Some(atom!("Function")));
+                    // Vue takes a default as the value itself only if `type` is exactly `Function`;
+                    // with any other `type` (say `[String, Function]`) it calls a function default as a factory
+                    let is_function_prop =
+                        ir.types.len() == 1 && ir.types.contains(&Some(atom!("Function")));
                     let mut props = vec![
                         PropOrSpread::Prop(Box::new(Prop::KeyValue(KeyValueProp {
                             key: PropName::Ident(quote_ident!("type")),
